@@ -153,7 +153,10 @@ impl SegmentInfo {
 
     /// Check if new data of the given size fits in this segment.
     pub fn has_space_for(&self, size: u64) -> bool {
-        self.state == SegmentState::Thawed && self.write_position + size <= SEGMENT_SIZE
+        // Written as a subtraction: `write_position + size` overflows for huge sizes.
+        self.state == SegmentState::Thawed
+            && self.write_position <= SEGMENT_SIZE
+            && size <= SEGMENT_SIZE - self.write_position
     }
 }
 
@@ -351,6 +354,15 @@ impl SegmentAllocator {
     /// 2. If none have space, create a new segment
     /// 3. Returns error if MAX_SEGMENTS reached
     pub fn allocate(&mut self, size: u64) -> crate::Result<Allocation> {
+        // No segment can hold more than what lies behind its header block; placing
+        // such a range at the start of a fresh segment would only run past its end.
+        let capacity = SEGMENT_SIZE - SEGMENT_HEADER_SIZE as u64;
+        if size > capacity {
+            return Err(crate::StorageError::Archive(format!(
+                "allocation of {size} bytes exceeds the segment capacity ({capacity})"
+            )));
+        }
+
         // Try existing thawed segments
         for pos in 0..self.segments.len() {
             if !self.segments[pos].has_space_for(size) {
